@@ -85,14 +85,24 @@ impl Cleaner {
     /// be leaked and the cleaning action will never be executed.
     #[inline]
     pub fn register(&self, action: impl FnOnce() + 'static) -> Cleanable {
-        let cc = {
+        // SAFETY: no reference to the Option already exists
+        if unsafe { (*self.cleaner_map.get()).is_none() } {
+            // Create the Cc before taking any reference to the Option: Cc::new may start a collection,
+            // whose finalizers and destructors may call register on this same Cleaner
+            let new_map = Cc::new(CleanerMap {
+                map: RefCell::new(SlotMap::with_capacity_and_key(3)),
+            });
+
             // SAFETY: no reference to the Option already exists
             let map = unsafe { &mut *self.cleaner_map.get() };
+            if map.is_none() {
+                *map = Some(new_map);
+            }
+            // Otherwise a map has been created in the meantime, new_map (which is empty) is simply dropped
+        }
 
-            map.get_or_insert_with(|| Cc::new(CleanerMap {
-                map: RefCell::new(SlotMap::with_capacity_and_key(3)),
-            }))
-        };
+        // SAFETY: no mutable reference to the Option exists and the Option is always Some here
+        let cc = unsafe { (*self.cleaner_map.get()).as_ref() }.expect("the cleaner map has been created above");
 
         let map_key = cc.map.borrow_mut().insert(CleaningAction(Some(Box::new(action))));
 
